@@ -611,7 +611,12 @@ class C08(FloatSpec):
     # ---------------------------------------------------------------- model
     def model_lines(self, c):
         with quiet():
-            return self._model_lines(c)
+            try:
+                return self._model_lines(c)
+            except Exception as e:
+                # the model's cells (scale factors, filter coefficients, unit draws) come from the library's own
+                # primitives; if one of them raises, the case is still evaluated: the oracle reports the failure
+                return [ctor_line(c['cal']), f'cells-unavailable {type(e).__name__}']
 
     def _model_lines(self, c):
         from psiaudio import stim
